@@ -25,9 +25,11 @@ type Instance struct {
 	polH *eventhandler.NetworkPolicyEventHandler
 }
 
-func startInstance(inst *Instance, node string) {
-	inst.pm = policy.VerifNew(simkernel.NewIPSet(), simkernel.NewIPTables(), kubeclient.NewClientset(),
-		kubeclient.PodLister{}, kubeclient.NamespaceLister{}, kubeclient.NetworkPolicyLister{}, node, true)
+// podInformerSynced=false models a daemon that starts while no NetworkPolicy exists: its pod informer is not
+// started, and syncPods lists this node's pods through the API client until a policy shows up.
+func startInstance(inst *Instance, node string, podInformerSynced bool) {
+	inst.pm = policy.VerifNew(simkernel.NewIPSet(), simkernel.NewIPTables(), kubeclient.NewFieldSelectingClientset(),
+		kubeclient.PodLister{}, kubeclient.NamespaceLister{}, kubeclient.NetworkPolicyLister{}, node, podInformerSynced)
 	inst.podH = eventhandler.NewPodEventHandler(inst.pm)
 	inst.polH = eventhandler.NewNetworkPolicyEventHandler(inst.pm)
 	core.InitDone()
